@@ -28,8 +28,24 @@ pub trait DataSource: fmt::Debug + Sync + Send {
     fn data_sections<'a>(&'a self) -> Vec<&'a dyn Data<'a>>;
     fn full_type(&self) -> Type;
 
-    fn decode<'a>(&'a self) -> BoxedData<'a> {
+    fn decode<'a>(&'a self) -> DecodedData<'a> {
         decode(&self.codec(), &self.data_sections())
+    }
+}
+
+/// Decoded column data together with the buffers that decoded strings point into.
+/// Strings obtained from it must not be kept beyond the lifetime of this value.
+pub struct DecodedData<'a> {
+    data: BoxedData<'a>,
+    // Dropped after `data`.
+    _backing: Vec<Vec<u8>>,
+}
+
+impl<'a> std::ops::Deref for DecodedData<'a> {
+    type Target = dyn Data<'a> + 'a;
+
+    fn deref(&self) -> &Self::Target {
+        &*self.data
     }
 }
 
@@ -581,8 +597,10 @@ impl From<Vec<OrderedFloat<f64>>> for DataSection {
     }
 }
 
-fn decode<'a>(codec: &Codec, sections: &[&'a dyn Data<'a>]) -> BoxedData<'a> {
+fn decode<'a>(codec: &Codec, sections: &[&'a dyn Data<'a>]) -> DecodedData<'a> {
     let mut section_stack: Vec<BoxedData<'a>> = vec![sections[0].slice_box(0, sections[0].len())];
+    // Buffers that decoded strings point into (moving a `Vec<u8>` does not move its heap allocation).
+    let mut backing: Vec<Vec<u8>> = Vec::new();
     for codec_op in codec.ops() {
         let arg0 = section_stack.first().unwrap();
         // The ops below read only the values of a nullable input. Remember its null map so that
@@ -827,7 +845,11 @@ fn decode<'a>(codec: &Codec, sections: &[&'a dyn Data<'a>]) -> BoxedData<'a> {
             }
             CodecOp::UnpackStrings => {
                 let mut output = Vec::new();
-                let packed: &'a [u8] = sections[0].cast_ref_u8();
+                // The packed bytes may have been decompressed by a preceding op, in which case they are
+                // dropped from the stack below: keep a copy alive for as long as the strings.
+                backing.push(arg0.cast_ref_u8().to_vec());
+                let packed =
+                    unsafe { std::mem::transmute::<&[u8], &'a [u8]>(backing.last().unwrap().as_slice()) };
                 let iterator = unsafe { StringPackerIterator::from_slice(packed) };
                 for str in iterator {
                     output.push(str);
@@ -844,5 +866,8 @@ fn decode<'a>(codec: &Codec, sections: &[&'a dyn Data<'a>]) -> BoxedData<'a> {
         section_stack.push(decoded);
     }
 
-    section_stack.pop().unwrap()
+    DecodedData {
+        data: section_stack.pop().unwrap(),
+        _backing: backing,
+    }
 }
